@@ -21,7 +21,7 @@ def run(ctx):
     ok = ctx.audit(['Scalibr.Properties.C09'], THEOREMS)
     if ctx.tier == 'thorough':
         ok = ctx.leanchecker('Scalibr.Properties.C09') and ok
-    n = {'quick': 8000, 'thorough': 200000}[ctx.tier]
+    n = {'quick': 8000, 'thorough': 200000}[ctx.tier] * W.scale(ctx)
 
     def oracle(case, fi, fm):
         v = W.oracle_calls(case, fi, fm) or W.oracle_fatal(case, fi, fm)
